@@ -174,13 +174,17 @@ def chunkAt (c : Nat) (d : Bytes) (o : Nat) : Chunk :=
   let data := (d.drop o).take c
   ⟨data, o == 0, data.isEmpty⟩
 
+/-- the transmission a call `getTransmissionData(node)` continues, or the one it opens
+(`open(fileName)` / the reference to the bytes; `none`: there is no dump, the open fails) -/
+def Ser.cur (s : Ser) (n : Nat) : Option Trans :=
+  match tlookup n s.trans with
+  | some t => some t
+  | none => s.fs.dump.map (fun d => ⟨d, 0⟩)
+
 /-- `getTransmissionData(node)`; `none` = the method returns `None` -/
 def Ser.getTransmissionData (s : Ser) (n : Nat) : Ser × Option Chunk :=
   if s.pid ≠ .idle then (s, none) else
-  let t? := match tlookup n s.trans with
-    | some t => some t
-    | none => s.fs.dump.map (fun d => ⟨d, 0⟩)     -- open / take the reference; fails when there is no dump
-  match t? with
+  match s.cur n with
   | none => (s, none)
   | some t =>
     let ch := chunkAt s.batch t.data t.off
@@ -192,15 +196,16 @@ def Ser.getTransmissionData (s : Ser) (n : Nat) : Ser × Option Chunk :=
 def Ser.cancel (s : Ser) (n : Nat) : Ser := { s with trans := terase n s.trans }
 
 /-- primitive operations of `setTransmissionData` on an accepted chunk (file mode lines 176-202; in memory
-mode the same operations on the bytes object) -/
-def receiveOps (c : Chunk) : List FsOp :=
-  (if c.isFirst then [.openW .tmp1] else []) ++ [.write .tmp1 c.data]
+mode the same operations on the bytes object).  `wasOpen`: a handle of an abandoned transfer is still open
+and is closed before the file is truncated (lines 178-179). -/
+def receiveOps (wasOpen : Bool) (c : Chunk) : List FsOp :=
+  (if c.isFirst then (if wasOpen then [.close .tmp1] else []) ++ [.openW .tmp1] else []) ++ [.write .tmp1 c.data]
     ++ (if c.isLast then [.close .tmp1, .rename .tmp1 .dump] else [])
 
 /-- the primitive operations a call `setTransmissionData(chunk)` performs (none when it is refused) -/
 def Ser.acceptOps (s : Ser) : Option Chunk → List FsOp
   | none => []
-  | some c => if !c.isFirst && !s.incOpen then [] else receiveOps c
+  | some c => if !c.isFirst && !s.incOpen then [] else receiveOps s.incOpen c
 
 /-- `setTransmissionData(chunk)`; the `Bool` is the return value (`True` = a complete snapshot was installed) -/
 def Ser.setTransmissionData (s : Ser) (c? : Option Chunk) : Ser × Bool :=
@@ -208,7 +213,7 @@ def Ser.setTransmissionData (s : Ser) (c? : Option Chunk) : Ser × Bool :=
   | none => (s, false)
   | some c =>
     if !c.isFirst && !s.incOpen then (s, false) else
-    ({ s with fs := s.fs.run (receiveOps c), incOpen := !c.isLast }, c.isLast)
+    ({ s with fs := s.fs.run (receiveOps s.incOpen c), incOpen := !c.isLast }, c.isLast)
 
 /-- what `deserialize()` reads (`none` = no data / no file: the call raises) -/
 def Ser.stored (s : Ser) : Option Bytes := s.fs.dump
